@@ -161,6 +161,12 @@ func applyOp(r *fox.Router, w writeAPI, txn *fox.Txn, m *refMap, kind int, metho
 
 // checkObs compares every reader of rd with the model; probes are extra (method, pattern) keys.
 func checkObs(rd readAPI, m *refMap, probes []mentry, who string) {
+	checkObsOpt(rd, m, probes, who, true)
+}
+
+// checkObsOpt: withIter=false skips the iterators (Txn.Iter on a write transaction resets its writable-node
+// cache, which would hide cache related defects from the following steps).
+func checkObsOpt(rd readAPI, m *refMap, probes []mentry, who string, withIter bool) {
 	sym.Assert(rd.Len() == len(m.ents), who+": Len() equals the number of registered routes")
 	for _, e := range m.ents {
 		sym.Assert(rd.Has(e.method, e.pattern), who+": Has() true for a registered route")
@@ -171,6 +177,9 @@ func checkObs(rd readAPI, m *refMap, probes []mentry, who string) {
 			sym.Assert(!rd.Has(p.method, p.pattern), who+": Has() false for an unregistered key")
 			sym.Assert(rd.Route(p.method, p.pattern) == nil, who+": Route() nil for an unregistered key")
 		}
+	}
+	if !withIter {
+		return
 	}
 	it := rd.Iter()
 	// All
@@ -243,8 +252,8 @@ var c02Methods = []string{"GET", "FOO", "POST", ""}
 
 // pattern pool: shares prefixes, parameters, catch-alls, hostnames; conflicts with each other.
 var c02Pool = []string{
-	"/a", "/a/{x}", "/a/{y}", "/a/*{w}", "/a/{x}/b", "a.b/", "{h}.b/x", "/",
-	"/ab", "/a/b", "/a/*{v}", "/a/*{w}/c", "/b{x}", "/b{y}/c", "a.b/x", "{g}.b/", "/{x", "/a/b/",
+	"/a", "/a/{x}", "/a/{y}", "/a/*{w}", "/a/{x}/b", "a.b/", "/s/a", "/s/c",
+	"{h}.b/x", "/", "/ab", "/a/b", "/a/*{v}", "/a/*{w}/c", "/b{x}", "/b{y}/c", "a.b/x", "{g}.b/", "/{x", "/a/b/",
 }
 
 type c02State struct {
@@ -307,9 +316,13 @@ func HarnessC02History(st any) {
 		if via == 0 {
 			checkObs(s.r, model, probes, "router")
 		} else {
-			checkObs(txn, model, probes, "txn")
+			// iter=0: no iterator on the open transaction between steps (keeps its writable-node cache alive)
+			checkObsOpt(txn, model, probes, "txn", sym.Param("iter") == 1)
 			checkObs(s.r, pre, probes, "router during txn")
 		}
+	}
+	if via > 0 {
+		checkObs(txn, model, probes, "txn before it ends")
 	}
 	switch via {
 	case 1:
